@@ -348,7 +348,7 @@ func c15Scenarios(th bool) []vx.Scenario {
 // c:N client writes N bytes, s:N server writes N bytes, C client closes, S server closes
 func c16Scenario(hist []string, serverUp bool, pb int) vx.Scenario {
 	name := fmt.Sprintf("c16/%v/server=%v", hist, serverUp)
-	return vx.Scenario{Name: name, PB: pb + 1, Delay: true, MaxSteps: 50000, MaxTime: time.Minute,
+	return vx.Scenario{Name: name, PB: pb + 1, Delay: true, MaxSteps: 50000, MaxTime: 5 * time.Minute,
 		Setup: func(s *vs.Sched) func(*vs.Result) vx.Exec {
 			w := setup(s, serverUp)
 			var srvConn net.Conn
@@ -397,6 +397,9 @@ func c16Scenario(hist []string, serverUp bool, pb int) vx.Scenario {
 								towardClient++
 							}
 						}
+					case 'T':
+						// time passes on the open connection
+						vtime.Sleep(31 * time.Second)
 					case 'H':
 						// half-close: the client is done sending but still reads
 						c.(*vnet.Conn).CloseWrite()
@@ -685,6 +688,10 @@ func c16Scenarios(th bool) []vx.Scenario {
 		}
 	}
 	rec(nil)
+	// connections that live for a while: data sent after 31 s must still arrive, closes still count
+	for _, h := range [][]string{{"T", "s:10", "S", "c:10", "c:10"}, {"c:10", "T", "s:10", "c:10"}, {"T", "c:40000", "s:10"}, {"s:10", "T", "C", "s:10", "s:10"}} {
+		out = append(out, c16Scenario(h, true, 0))
+	}
 	// two connections at once
 	for _, cd := range []bool{false, true} {
 		for _, cl := range []string{"client", "server"} {
